@@ -113,6 +113,8 @@ def cases(tier, seed):
         if in_fragment(m) and all(re.fullmatch(r'[A-Z][A-Za-z0-9_]*', n) for n in sh.names(m)) and \
                 not any('EXCLUDES' in sh.tree_ops(t) and isinstance(t[1], tuple) for _n, t in m[1]):
             yield ('D', m)
+    for t in families.long_chains():
+        yield ('K', cm.on_carrier([t]))
     for t in families.deep_trees():
         if 'XOR' not in sh.tree_ops(t):
             yield ('K', cm.on_carrier([t]))
